@@ -195,6 +195,8 @@ def long_line(rng, target):
 
 def gen_case(rng, stream, casedir):
     topdir = rng.choice(["", "", "t", "t/u"])
+    if stream == "colon":
+        topdir = rng.choice(["c:d", "t/c:d", "c:"])
     style = rng.choice(["rel", "rel", "dot", "abs"])
 
     def cmd_name(rel):
@@ -524,7 +526,7 @@ def judge(ctx, pdsh, cases, mode, linebuf):
                 if r["nwarn"] != nwarn:
                     v.append(("disagreement", "warning count", "real %d model %d: %s" % (r["nwarn"], nwarn, r["err"][-200:])))
         # ---------------- oracle: property-level assembly vs real (not for malformed include lines)
-        if c["stream"] == "malformed":
+        if c["stream"] in ("malformed", "colon"):
             continue
         sp = spec_assemble(c)
         # the Lean specification must say the same as the Python reading of the property
@@ -602,8 +604,8 @@ def run(ctx):
                    "./, ../, absolute; comments, blanks, trailing comments, final line with and without newline) x "
                    "source lists (^file, -w words, `-`/`^-` = stdin, WCOLL, comma-joined or separate -w options, all "
                    "orders); streams: plain, broken (missing / mode-000 file, run as uid 1000), long (lines around "
-                   "1023/2046/2047/2048/4095/6141 and up to 100 KiB), malformed #include lines (model "
-                   "correspondence only); non-trivial = at least two files or a line of 2047+ bytes; distinct = "
+                   "1023/2046/2047/2048/4095/6141 and up to 100 KiB), malformed #include lines and a ':' in the "
+                   "directory of the command-line file (both: model correspondence only); non-trivial = at least two files or a line of 2047+ bytes; distinct = "
                    "distinct (tree, command line)"}
     repo = ctx.repo_build()
     if repo:
@@ -638,7 +640,7 @@ def run(ctx):
             n = 420 if ctx.quick() else 9000
             cases = []
             for i in range(n):
-                stream = rng.choices(["plain", "broken", "long", "malformed"], [50, 18, 17, 15])[0]
+                stream = rng.choices(["plain", "broken", "long", "malformed", "colon"], [48, 18, 17, 13, 4])[0]
                 cases.append(gen_case(rng, stream, os.path.join(base, "k%d" % i)))
             if not ctx.quick():
                 # every line length around the buffer boundaries x 3 line shapes
